@@ -79,7 +79,7 @@ def check_property(prop, tier, seed, only=None, keep=False, write_evidence=True)
         # ---- Kani groups
         groups = {}
         for o in kani_obs:
-            feats = o["features"] if tier == "thorough" else o["features"][:1]
+            feats = OB.features_for(prop, o, tier)
             for ft in feats:
                 groups.setdefault((ft, tuple(o.get("zflags", ())), o.get("group", "")), []).append(o)
         def run_group(item):
